@@ -388,6 +388,12 @@ class Sender:
         # till this point, no new ones.
         await self._message_accumulator.flush_for_commit()
 
+        if txn_manager.is_fatal_error():
+            # One of the flushed batches was rejected with a fatal error, the
+            # waiter of commit/abort was failed with it. Nothing may be
+            # written for this transaction anymore.
+            return
+
         # If we never sent any data to begin with, no need to commit
         if txn_manager.is_empty_transaction():
             txn_manager.complete_transaction()
@@ -885,15 +891,19 @@ class SendProduceReqHandler(BaseHandler):
                         exc = error(topic)
                     else:
                         exc = error()
-                    batch.failure(exception=exc)
                     if (
                         txn_manager is not None
                         and txn_manager.transactional_id is not None
                         and error in (InvalidProducerEpoch, OutOfOrderSequenceNumber)
                     ):
                         # The transactional producer can not continue after
-                        # those, same as if a transactional request got them
+                        # those, same as if a transactional request got them.
+                        # Mark it before the batch future wakes anybody up: a
+                        # commit that is waiting for this batch must not go
+                        # on to send EndTxn.
                         fatal_error = exc
+                        txn_manager.fatal_error(exc)
+                    batch.failure(exception=exc)
                 else:
                     log.warning(
                         "Got error produce response on topic-partition"
